@@ -104,9 +104,15 @@ def _session_ops(c):
         r = do(["authorize", user, cl, ["openid", "offline_access", "email"], red])
         if r[0] == "code":
             do(["tokenParse", cl, r[1], red]); do(["tokenProcess", 0])
-    clients = rng.sample(prov.CLIENTS, rng.randint(2, 3))
+    clients = rng.sample(prov.CLIENTS[:3], rng.randint(2, 3))
     for cl in clients:
         login("diana", cl)
+    if rng.random() < 0.6:
+        # a second session at one of the clients, the older one removed (remove_session): what is left must still be reached by a later logout
+        login("diana", clients[0])
+        olds = [hg for hg, (g, path) in sorted(R.gobj.items()) if path[:2] == ["diana", clients[0]]]
+        if len(olds) >= 2:
+            do(["remove", olds[0] if rng.random() < 0.7 else olds[-1]])
     if rng.random() < 0.5:
         login("bob", clients[0])
     for rnd in range(rng.randint(1, 3)):
@@ -276,6 +282,11 @@ def oracle(c, obs):
         addressed_more = set()
         k = o[0]
         ok = st["raw"][0] != "err"
+        if k in ("revokeClient", "logoutAll", "revokeUser") and not ok and str(st["raw"][1]).startswith("exc:"):
+            # a logout that blows up half-way: whatever it did not reach stays honoured
+            mine = [g for g, uc in grant_of.items() if uc[0] == o[1] and (k != "revokeClient" or uc[1] == o[2]) and g not in removed]
+            if mine and st["raw"][1] != "exc:KeyError" or (mine and any(ui or it for h, (ui, it) in st["status"].items() if info.get(h) and info[h][1] in mine)):
+                v.append({"cls": "logout-raised", "step": i, "op": k, "how": st["raw"][1]})
         if k == "revokeTok" and ok and o[1] in info:
             dead.add(o[1]); addressed = {info[o[1]][1]}
             if o[2]:
